@@ -3,6 +3,9 @@ namespace Blue.Stall
 
 structure Inv (s : St) : Prop where
   notif : s.ingestNotifies = true
+  /-- a failed compaction is released, so no entry of `ongoing` is without a compaction in flight -/
+  rel : s.abortReleases = true
+  nostale : s.stale = 0
   ne : s.compactors ≠ []
   /-- a sleeping ingester's condition still holds: every change of level 0 by a compaction wakes it -/
   ing : ∀ t ∈ s.ingesters, t = .waiting → stalled s = true
@@ -49,10 +52,10 @@ theorem lt_of_getElem?_some {l : List TState} {i : Nat} {x : TState} (h : l[i]? 
 
 /-- all compaction threads asleep, one of them being the one that just parked, leaves nothing in
     flight -/
-theorem idle_of_all_waiting {s : St} {i : Nat} (hrun : s.compactors[i]? = some .running)
+theorem idle_of_all_waiting {s : St} {i : Nat} (hst : s.stale = 0) (hrun : s.compactors[i]? = some .running)
     (hall : ∀ t ∈ setAt s.compactors i .waiting, t = .waiting) : idle s = true := by
   unfold idle
-  simp only [List.all_eq_true, bne_iff_ne, ne_eq]
+  simp only [hst, beq_self_eq_true, Bool.and_true, List.all_eq_true, bne_iff_ne, ne_eq]
   intro t ht hinf
   subst hinf
   have := hall _ (setAt_other (i := i) (x := .waiting) ht (by rw [hrun]; simp))
@@ -65,13 +68,13 @@ theorem inv_step {s : St} (h : Inv s) (ev : Ev) (hok : selOK s ev = true) : Inv 
     split
     · split
       · rename_i hst
-        refine ⟨h.notif, h.ne, ?_, h.cmp, h.sel⟩
+        refine ⟨h.notif, h.rel, h.nostale, h.ne, ?_, h.cmp, h.sel⟩
         intro t ht hw
         rcases mem_setAt ht with _ | ht
         · exact hst
         · exact h.ing t ht hw
       · rename_i hst
-        refine ⟨h.notif, ?_, ?_, ?_, ?_⟩
+        refine ⟨h.notif, h.rel, h.nostale, ?_, ?_, ?_, ?_⟩
         · simp only [h.notif, if_true]; exact wakeAll_ne h.ne
         · intro t ht hw
           exact absurd (h.ing t ht hw) hst
@@ -88,7 +91,7 @@ theorem inv_step {s : St} (h : Inv s) (ev : Ev) (hok : selOK s ev = true) : Inv 
     · rename_i hrun
       have hi := lt_of_getElem?_some hrun
       split
-      · refine ⟨h.notif, setAt_ne h.ne, h.ing, ?_, h.sel⟩
+      · refine ⟨h.notif, h.rel, h.nostale, setAt_ne h.ne, h.ing, ?_, h.sel⟩
         intro hall
         have := hall _ (setAt_mem (x := .inflight) hi)
         cases this
@@ -99,9 +102,9 @@ theorem inv_step {s : St} (h : Inv s) (ev : Ev) (hok : selOK s ev = true) : Inv 
           cases hx : (stalled s && idle s) with
           | false => rfl
           | true => simp [selOK, hx] at hok
-        refine ⟨h.notif, setAt_ne h.ne, h.ing, ?_, ?_⟩
+        refine ⟨h.notif, h.rel, h.nostale, setAt_ne h.ne, h.ing, ?_, ?_⟩
         · intro hall
-          have := idle_of_all_waiting hrun hall
+          have := idle_of_all_waiting h.nostale hrun hall
           simp [this]
         · intro hq
           have hq' : s.quiet = true ∨ idle s = true := by
@@ -118,7 +121,7 @@ theorem inv_step {s : St} (h : Inv s) (ev : Ev) (hok : selOK s ev = true) : Inv 
     split
     · rename_i hrun
       have hi := lt_of_getElem?_some hrun
-      refine ⟨h.notif, setAt_ne h.ne, ?_, ?_, ?_⟩
+      refine ⟨h.notif, h.rel, h.nostale, setAt_ne h.ne, ?_, ?_, ?_⟩
       · intro t ht hw
         exact absurd hw (mem_wakeAll ht)
       · intro hall
@@ -126,10 +129,21 @@ theorem inv_step {s : St} (h : Inv s) (ev : Ev) (hok : selOK s ev = true) : Inv 
         cases this
       · intro hq; cases hq
     · exact h
+  | abort i =>
+    simp only [step]
+    split
+    · rename_i hin
+      have hi := lt_of_getElem?_some hin
+      refine ⟨h.notif, h.rel, ?_, setAt_ne h.ne, h.ing, ?_, h.sel⟩
+      · simp only [h.rel, if_true]; exact h.nostale
+      · intro hall
+        have := hall _ (setAt_mem (x := .running) hi)
+        cases this
+    · exact h
   | spurI i =>
     simp only [step]
     split
-    · refine ⟨h.notif, h.ne, ?_, h.cmp, h.sel⟩
+    · refine ⟨h.notif, h.rel, h.nostale, h.ne, ?_, h.cmp, h.sel⟩
       intro t ht hw
       rcases mem_setAt ht with ht | ht
       · rw [ht] at hw; cases hw
@@ -140,7 +154,7 @@ theorem inv_step {s : St} (h : Inv s) (ev : Ev) (hok : selOK s ev = true) : Inv 
     split
     · rename_i hw
       have hi := lt_of_getElem?_some hw
-      refine ⟨h.notif, setAt_ne h.ne, h.ing, ?_, h.sel⟩
+      refine ⟨h.notif, h.rel, h.nostale, setAt_ne h.ne, h.ing, ?_, h.sel⟩
       intro hall
       have := hall _ (setAt_mem (x := .running) hi)
       cases this
@@ -226,8 +240,8 @@ theorem ingest_wakes {s : St} {i b : Nat} (hn : s.ingestNotifies = true)
 
 /-- a fresh store satisfies the invariant, whatever the thresholds -/
 theorem inv_init (stallAt stallBytes ni nc : Nat) :
-    Inv ⟨stallAt, stallBytes, 0, 0, List.replicate ni .running, List.replicate (nc + 1) .running, false, true⟩ := by
-  refine ⟨rfl, by simp [List.replicate_succ], ?_, ?_, ?_⟩
+    Inv ⟨stallAt, stallBytes, 0, 0, List.replicate ni .running, List.replicate (nc + 1) .running, false, true, 0, true⟩ := by
+  refine ⟨rfl, rfl, rfl, by simp [List.replicate_succ], ?_, ?_, ?_⟩
   · intro t ht hw
     rw [List.eq_of_mem_replicate ht] at hw; cases hw
   · intro hall
@@ -268,13 +282,84 @@ theorem invB_of_inv {s : St} (h : Inv s) : invB s = true := by
     cases hq : s.quiet with
     | false => rfl
     | true => simp [h.sel hq]
-  simp [h.notif, h1, h2, h3, h4]
+  simp [h.notif, h.rel, h.nostale, h1, h2, h3, h4]
+
+/-- a failed compaction releases its inputs: after `abort` the thread is back at selection, the
+    `ongoing` list is shorter by the failed compaction, and if no other compaction is in flight it
+    is empty — level 0 and the sleepers are as before -/
+theorem abort_releases {s : St} {i : Nat} (h : Inv s) (hin : s.compactors[i]? = some .inflight) :
+    (step s (.abort i)).compactors[i]? = some .running
+      ∧ ongoing (step s (.abort i)) + 1 = ongoing s
+      ∧ ((∀ j, j ≠ i → s.compactors[j]? ≠ some .inflight) → idle (step s (.abort i)) = true)
+      ∧ (step s (.abort i)).l0 = s.l0 ∧ (step s (.abort i)).ingesters = s.ingesters := by
+  have hi := lt_of_getElem?_some hin
+  have hget : s.compactors[i] = .inflight := by
+    have := List.getElem?_eq_getElem hi
+    rw [this] at hin; exact Option.some.inj hin
+  have hstep : step s (.abort i) = { s with compactors := setAt s.compactors i .running, stale := s.stale } := by
+    simp only [step, hin, h.rel, if_true]
+  rw [hstep]
+  refine ⟨?_, ?_, ?_, rfl, rfl⟩
+  · unfold setAt; simp [hi]
+  · unfold ongoing setAt
+    simp only [h.nostale, Nat.add_zero]
+    have hcount : ∀ (l : List TState) (k : Nat) (hk : k < l.length), l[k] = .inflight →
+        ((l.set k .running).filter (· == .inflight)).length + 1 = (l.filter (· == .inflight)).length := by
+      intro l
+      induction l with
+      | nil => intro k hk; cases hk
+      | cons a t ih =>
+        intro k hk hget
+        cases k with
+        | zero =>
+          simp only [List.getElem_cons_zero] at hget
+          subst hget
+          simp [List.filter]
+        | succ k =>
+          simp only [List.getElem_cons_succ] at hget
+          have := ih k (by simpa using hk) hget
+          simp only [List.set_cons_succ, List.filter_cons]
+          split <;> simp_all <;> omega
+    exact hcount s.compactors i hi hget
+  · intro hother
+    unfold idle
+    simp only [h.nostale, beq_self_eq_true, Bool.and_true, List.all_eq_true, bne_iff_ne, ne_eq]
+    intro t ht hinf
+    subst hinf
+    rcases mem_setAt ht with h1 | h1
+    · cases h1
+    · obtain ⟨j, hj, hjt⟩ := List.getElem_of_mem h1
+      by_cases hji : j = i
+      · -- the only in-flight entry at `i` was overwritten: `t` comes from the set list
+        subst hji
+        unfold setAt at ht
+        obtain ⟨k, hk, hkt⟩ := List.getElem_of_mem ht
+        by_cases hki : k = j
+        · subst hki
+          simp at hkt
+        · have hk' : k < s.compactors.length := by simpa using hk
+          rw [List.getElem_set_ne (by omega)] at hkt
+          exact hother k hki (by rw [List.getElem?_eq_getElem hk', hkt])
+      · exact hother j hji (by rw [List.getElem?_eq_getElem hj, hjt])
+
+/-- mutant: the error path does not release the failed compaction.  Its entry stays on the
+    `ongoing` list, so the store is never idle again and `Sel` never obliges the selector; after
+    one failed compaction of level 0 the selector answers "nothing" (every candidate conflicts
+    with the entry), the ingester and the fresh compaction thread put each other to sleep — and
+    the run obeys `Sel` throughout -/
+theorem deadlock_when_abort_keeps_entry :
+    let s0 : St := ⟨1, 1000, 0, 0, [.running], [.running], false, true, 0, false⟩
+    let evs := [Ev.ingest 0 10, .select 0 true, .abort 0, .select 0 false, .ingest 0 10]
+    deadlocked (evs.foldl step s0) = true ∧ runSel s0 evs = true ∧ ongoing (evs.foldl step s0) = 1
+      ∧ (let s1 : St := ⟨1, 1000, 0, 0, [.running], [.running], false, true, 0, true⟩
+         runSel s1 evs = false ∧ ongoing ((evs.take 3).foldl step s1) = 0) := by
+  decide
 
 /-- **D-15 at model level**: when the selector answers "nothing" on a stalled tree with nothing in
     flight (`Sel` broken at the second event), one ingester and one compactor put each other to
     sleep -/
 theorem deadlock_when_selector_starves :
-    let s0 : St := ⟨1, 1000, 0, 0, [.running], [.running], false, true⟩
+    let s0 : St := ⟨1, 1000, 0, 0, [.running], [.running], false, true, 0, true⟩
     let evs := [Ev.ingest 0 10, .select 0 false, .ingest 0 10]
     deadlocked (evs.foldl step s0) = true ∧ runSel s0 evs = false
       ∧ runSel s0 (evs.take 1) = true ∧ selOK (evs.take 1 |>.foldl step s0) (.select 0 false) = false := by
@@ -283,7 +368,7 @@ theorem deadlock_when_selector_starves :
 /-- mutant: ingest no longer notifies `compact` → the compactor that went to sleep on an empty
     tree is never woken, although the selector obeys `Sel` throughout -/
 theorem deadlock_without_ingest_notify :
-    let s0 : St := ⟨1, 1000, 0, 0, [.running], [.running], false, false⟩
+    let s0 : St := ⟨1, 1000, 0, 0, [.running], [.running], false, false, 0, true⟩
     let evs := [Ev.select 0 false, .ingest 0 10, .ingest 0 10]
     deadlocked (evs.foldl step s0) = true ∧ runSel s0 evs = true := by
   decide
@@ -293,7 +378,7 @@ theorem deadlock_without_ingest_notify :
     flight and parked; thread 0 finishes, selects again and is served, thread 1 sleeps on.
     Parallelism is lost until the next ingest, progress is not. -/
 theorem sleeper_with_work :
-    let s0 : St := ⟨5, 1000, 0, 0, [.running], [.running, .running], false, true⟩
+    let s0 : St := ⟨5, 1000, 0, 0, [.running], [.running, .running], false, true, 0, true⟩
     let evs := [Ev.ingest 0 10, .ingest 0 10, .ingest 0 10, .select 0 true, .select 1 false, .finish 0 1 10]
     let s := evs.foldl step s0
     s.compactors = [.running, .waiting] ∧ s.quiet = false ∧ runSel s0 (evs ++ [.select 0 true]) = true
